@@ -47,31 +47,41 @@ Record env := mkE {
   est : cstate;
   eep : nat;                               (* producer epoch the coordinator holds *)
   einit : bool;                            (* an InitProducerId has succeeded at least once *)
+  eissued : list nat;                      (* epochs handed out by InitProducerId, not yet received *)
   eparts : list nat;                       (* registered partitions (GROUPP = the group) *)
-  glog : list (nat * entry)                (* all partition logs, interleaved in arrival order *)
+  glog : list (nat * entry);               (* all partition logs, interleaved in arrival order *)
+  (* ghost *)
+  eowner : option tag;                     (* the application transaction that opened the current
+                                              coordinator transaction *)
+  edone : list (option tag * bool)         (* ended coordinator transactions: owner, committed? *)
 }.
 
 Definition log_of (p : nat) (g : list (nat * entry)) : list entry :=
   map snd (filter (fun x => Nat.eqb (fst x) p) g).
 
 (* read-committed view of one partition log: left-to-right, data of the open transaction is held
-   back until its marker; what is still open at the end is above the last stable offset *)
-Definition rc_step (st : list nat * list nat) (e : entry) : list nat * list nat :=
+   back until its marker; what is still open at the end is above the last stable offset.
+   Items are paired with the tag of the application transaction that wrote them. *)
+Definition rc_step (st : list (tag * nat) * list (tag * nat)) (e : entry)
+  : list (tag * nat) * list (tag * nat) :=
   let '(open, vis) := st in
   match e with
-  | Data _ _ items => (open ++ items, vis)
+  | Data _ tg items => (open ++ map (fun x => (tg, x)) items, vis)
   | Marker _ true => ([], vis ++ open)
   | Marker _ false => ([], vis)
   end.
-Definition rc_state (l : list entry) : list nat * list nat := fold_left rc_step l ([], []).
-Definition rc_view (l : list entry) : list nat := snd (rc_state l).
-Definition rc_open (l : list entry) : list nat := fst (rc_state l).
+Definition rc_state (l : list entry) := fold_left rc_step l ([], []).
+Definition rc_view_t (l : list entry) : list (tag * nat) := snd (rc_state l).
+Definition rc_open_t (l : list entry) : list (tag * nat) := fst (rc_state l).
+Definition rc_view (l : list entry) : list nat := map snd (rc_view_t l).
 
 Definition markers (ps : list nat) (ep : nat) (commit : bool) : list (nat * entry) :=
   map (fun p => (p, Marker ep commit)) ps.
 
 (* ---------- client -------------------------------------------------------------------------------- *)
-Record batch := mkB { bid : nat; bpart : nat; btag : nat; bitems : list nat }.
+Record batch := mkB { bid : nat; bpart : nat; btag : nat; bitems : list nat; bsent : bool; bapp : bool }.
+(* bsent: drained at least once (its builder is closed: no more records); bapp (ghost): the leader
+   has appended it *)
 
 Inductive skind := KParts | KOffs | KToc | KEnd.
 Inductive sstat := SPicked | SApplied | SNotApplied.   (* what happened to the task's request *)
@@ -86,36 +96,94 @@ Record client := mkC {
   pend_offs : list (list nat);     (* _pending_txn_offsets: entries of offset items *)
   queue : list batch;              (* accumulator, not yet drained (per partition: in order) *)
   inflight : list batch;           (* drained and unresolved (_pending_batches) *)
+  deadb : list batch;              (* drained batches whose futures were failed while the produce task
+                                      is still running (fail_all): it may still send / re-send them *)
   slot : option (skind * sstat);   (* the single transactional task *)
   kcur : nat;                      (* index of the current application transaction *)
-  (* ghost *)
-  accepted : list (nat * nat);     (* (item, partition) accepted in transaction kcur *)
-  lostb : bool                     (* a batch of transaction kcur failed *)
+  (* ghost, about application transaction kcur *)
+  accepted : list (nat * nat);     (* (item, partition) accepted *)
+  lostb : bool;                    (* a batch failed / pending offsets were dropped *)
+  capp : list (nat * nat);         (* (item, partition) appended by the brokers *)
+  csent : bool;                    (* an EndTxn(commit) was applied *)
+  cowned : bool;                   (* it has opened a coordinator transaction *)
+  ctoc : list nat                  (* offset items of the TxnOffsetCommit the group coordinator applied last *)
 }.
 
 Definition client0 : client :=
-  mkC true 0 UNINIT [] [] false [] [] [] None 0 [] false.
+  mkC true 0 UNINIT [] [] false [] [] [] [] None 0 [] false [] false false [].
+
+(* field updates *)
+Definition set_alive (c : client) (x : bool) :=
+  mkC x (cep c) (cst c) (txn_parts c) (pend_parts c) (grp c) (pend_offs c) (queue c) (inflight c) (deadb c)
+      (slot c) (kcur c) (accepted c) (lostb c) (capp c) (csent c) (cowned c) (ctoc c).
+Definition set_cst (c : client) (x : tst) :=
+  mkC (alive c) (cep c) x (txn_parts c) (pend_parts c) (grp c) (pend_offs c) (queue c) (inflight c) (deadb c)
+      (slot c) (kcur c) (accepted c) (lostb c) (capp c) (csent c) (cowned c) (ctoc c).
+Definition set_parts (c : client) (t p : list nat) :=
+  mkC (alive c) (cep c) (cst c) t p (grp c) (pend_offs c) (queue c) (inflight c) (deadb c)
+      (slot c) (kcur c) (accepted c) (lostb c) (capp c) (csent c) (cowned c) (ctoc c).
+Definition set_grp (c : client) (x : bool) :=
+  mkC (alive c) (cep c) (cst c) (txn_parts c) (pend_parts c) x (pend_offs c) (queue c) (inflight c) (deadb c)
+      (slot c) (kcur c) (accepted c) (lostb c) (capp c) (csent c) (cowned c) (ctoc c).
+Definition set_offs (c : client) (x : list (list nat)) :=
+  mkC (alive c) (cep c) (cst c) (txn_parts c) (pend_parts c) (grp c) x (queue c) (inflight c) (deadb c)
+      (slot c) (kcur c) (accepted c) (lostb c) (capp c) (csent c) (cowned c) (ctoc c).
+Definition set_queue (c : client) (x : list batch) :=
+  mkC (alive c) (cep c) (cst c) (txn_parts c) (pend_parts c) (grp c) (pend_offs c) x (inflight c) (deadb c)
+      (slot c) (kcur c) (accepted c) (lostb c) (capp c) (csent c) (cowned c) (ctoc c).
+Definition set_inflight (c : client) (x : list batch) :=
+  mkC (alive c) (cep c) (cst c) (txn_parts c) (pend_parts c) (grp c) (pend_offs c) (queue c) x (deadb c)
+      (slot c) (kcur c) (accepted c) (lostb c) (capp c) (csent c) (cowned c) (ctoc c).
+Definition set_deadb (c : client) (x : list batch) :=
+  mkC (alive c) (cep c) (cst c) (txn_parts c) (pend_parts c) (grp c) (pend_offs c) (queue c) (inflight c) x
+      (slot c) (kcur c) (accepted c) (lostb c) (capp c) (csent c) (cowned c) (ctoc c).
+Definition set_slot (c : client) (x : option (skind * sstat)) :=
+  mkC (alive c) (cep c) (cst c) (txn_parts c) (pend_parts c) (grp c) (pend_offs c) (queue c) (inflight c) (deadb c)
+      x (kcur c) (accepted c) (lostb c) (capp c) (csent c) (cowned c) (ctoc c).
+Definition set_accepted (c : client) (x : list (nat * nat)) :=
+  mkC (alive c) (cep c) (cst c) (txn_parts c) (pend_parts c) (grp c) (pend_offs c) (queue c) (inflight c) (deadb c)
+      (slot c) (kcur c) x (lostb c) (capp c) (csent c) (cowned c) (ctoc c).
+Definition set_lostb (c : client) (x : bool) :=
+  mkC (alive c) (cep c) (cst c) (txn_parts c) (pend_parts c) (grp c) (pend_offs c) (queue c) (inflight c) (deadb c)
+      (slot c) (kcur c) (accepted c) x (capp c) (csent c) (cowned c) (ctoc c).
+Definition set_capp (c : client) (x : list (nat * nat)) :=
+  mkC (alive c) (cep c) (cst c) (txn_parts c) (pend_parts c) (grp c) (pend_offs c) (queue c) (inflight c) (deadb c)
+      (slot c) (kcur c) (accepted c) (lostb c) x (csent c) (cowned c) (ctoc c).
+Definition set_csent (c : client) (x : bool) :=
+  mkC (alive c) (cep c) (cst c) (txn_parts c) (pend_parts c) (grp c) (pend_offs c) (queue c) (inflight c) (deadb c)
+      (slot c) (kcur c) (accepted c) (lostb c) (capp c) x (cowned c) (ctoc c).
+Definition set_ctoc (c : client) (x : list nat) :=
+  mkC (alive c) (cep c) (cst c) (txn_parts c) (pend_parts c) (grp c) (pend_offs c) (queue c) (inflight c) (deadb c)
+      (slot c) (kcur c) (accepted c) (lostb c) (capp c) (csent c) (cowned c) x.
+Definition set_cowned (c : client) (x : bool) :=
+  mkC (alive c) (cep c) (cst c) (txn_parts c) (pend_parts c) (grp c) (pend_offs c) (queue c) (inflight c) (deadb c)
+      (slot c) (kcur c) (accepted c) (lostb c) (capp c) (csent c) x (ctoc c).
+(* begin_transaction: a new application transaction *)
+Definition new_txn (c : client) (t : tst) :=
+  mkC (alive c) (cep c) t (txn_parts c) (pend_parts c) (grp c) (pend_offs c) (queue c) (inflight c) []
+      (slot c) (S (kcur c)) [] false [] false false [].
+(* error_transaction / fatal_error: partitions, group and pending offsets are forgotten *)
+Definition c_clear (c : client) (t : tst) :=
+  set_lostb (set_offs (set_grp (set_parts (set_cst c t) [] []) false) []) true.
 
 Definition has_part_q (p : nat) (q : list batch) : bool := existsb (fun b => Nat.eqb (bpart b) p) q.
+Definition has_bid (n : nat) (q : list batch) : bool := existsb (fun b => Nat.eqb (bid b) n) q.
 
-(* first batch of partition p in the queue, and the queue without it *)
-Fixpoint take_head (p : nat) (q : list batch) : option (batch * list batch) :=
+(* first batch of partition p in the queue *)
+Fixpoint head_of (p : nat) (q : list batch) : option batch :=
   match q with
   | [] => None
-  | b :: q' => if Nat.eqb (bpart b) p then Some (b, q')
-               else match take_head p q' with
-                    | Some (x, r) => Some (x, b :: r)
-                    | None => None
-                    end
+  | b :: q' => if Nat.eqb (bpart b) p then Some b else head_of p q'
   end.
 
-(* append an item to the LAST batch of partition p *)
+(* append an item to the LAST batch of partition p, which must be batch bidx *)
 Fixpoint snoc_item (p : nat) (bidx : nat) (x : nat) (q : list batch) : option (list batch) :=
   match q with
   | [] => None
   | b :: q' =>
       if Nat.eqb (bpart b) p && negb (has_part_q p q') then
-        if Nat.eqb (bid b) bidx then Some (mkB (bid b) (bpart b) (btag b) (bitems b ++ [x]) :: q') else None
+        if Nat.eqb (bid b) bidx && negb (bsent b)
+        then Some (mkB (bid b) (bpart b) (btag b) (bitems b ++ [x]) false (bapp b) :: q') else None
       else match snoc_item p bidx x q' with Some r => Some (b :: r) | None => None end
   end.
 
@@ -124,6 +192,14 @@ Fixpoint take_bid (n : nat) (q : list batch) : option (batch * list batch) :=
   | [] => None
   | b :: q' => if Nat.eqb (bid b) n then Some (b, q')
                else match take_bid n q' with Some (x, r) => Some (x, b :: r) | None => None end
+  end.
+
+(* mark the first batch with this id as appended *)
+Fixpoint mark_app (n : nat) (q : list batch) : list batch :=
+  match q with
+  | [] => []
+  | b :: q' => if Nat.eqb (bid b) n then mkB (bid b) (bpart b) (btag b) (bitems b) (bsent b) true :: q'
+               else b :: mark_app n q'
   end.
 
 (* _maybe_do_transactional_request: the request the sender picks next *)
@@ -140,13 +216,13 @@ Inductive outcome := OCommitted | OAborted.
 Record gstate := mkG {
   clients : list client;
   genv : env;
-  ended : list (tag * outcome * list (nat * nat) * bool)
-                                   (* ghost: application transactions whose commit / abort returned:
-                                      tag, outcome, accepted (item, partition), some batch failed *)
+  ended : list (tag * outcome * list (nat * nat))
+                                   (* ghost: application transactions whose commit / abort returned,
+                                      with the (item, partition) pairs they had accepted *)
 }.
 
-Definition g0 (n : nat) : gstate :=
-  mkG (repeat client0 n) (mkE EEmpty 0 false [] []) [].
+Definition env0 : env := mkE EEmpty 0 false [] [] [] None [].
+Definition g0 (n : nat) : gstate := mkG (repeat client0 n) env0 [].
 
 Inductive verdict := VApplied | VNot.       (* did the broker apply the request *)
 
@@ -155,8 +231,8 @@ Inductive event :=
 | EFence                                  (* InitProducerId meets an Ongoing transaction: epoch bump, PrepareAbort *)
 | EMarkers                                (* the coordinator writes the markers of the prepared transaction *)
 | EInitOk                                 (* an InitProducerId succeeds at the coordinator: epoch bump *)
-| AStart (i : nat) (ep : nat)             (* instance i received its producer id and epoch ep *)
 (* application / TransactionManager of instance i *)
+| AStart (i : nat) (ep : nat)             (* instance i received its producer id and epoch ep *)
 | ABegin (i : nat)
 | AAccept (i : nat) (x : nat) (p : nat) (b : nat) (newb : bool)   (* record x accepted into batch b *)
 | AOffsets (i : nat) (items : list nat)
@@ -199,41 +275,41 @@ Definition put (s : gstate) (i : nat) (c : client) : gstate :=
   mkG (set_nth i c (clients s)) (genv s) (ended s).
 Definition put_env (s : gstate) (e : env) : gstate := mkG (clients s) e (ended s).
 
-(* field updates *)
-Definition c_st (c : client) (t : tst) :=
-  mkC (alive c) (cep c) t (txn_parts c) (pend_parts c) (grp c) (pend_offs c) (queue c) (inflight c)
-      (slot c) (kcur c) (accepted c) (lostb c).
-Definition c_slot (c : client) (x : option (skind * sstat)) :=
-  mkC (alive c) (cep c) (cst c) (txn_parts c) (pend_parts c) (grp c) (pend_offs c) (queue c) (inflight c)
-      x (kcur c) (accepted c) (lostb c).
-Definition c_queues (c : client) (q f : list batch) :=
-  mkC (alive c) (cep c) (cst c) (txn_parts c) (pend_parts c) (grp c) (pend_offs c) q f
-      (slot c) (kcur c) (accepted c) (lostb c).
-Definition c_clear (c : client) (t : tst) :=       (* error_transaction / fatal_error *)
-  mkC (alive c) (cep c) t [] [] false [] (queue c) (inflight c) (slot c) (kcur c) (accepted c) (lostb c).
-
+Definition skind_eqb (a b : skind) : bool :=
+  match a, b with KParts, KParts | KOffs, KOffs | KToc, KToc | KEnd, KEnd => true | _, _ => false end.
+Definition sstat_eqb (a b : sstat) : bool :=
+  match a, b with SPicked, SPicked | SApplied, SApplied | SNotApplied, SNotApplied => true | _, _ => false end.
 Definition slot_is (c : client) (k : skind) (st : sstat) : bool :=
-  match slot c with
-  | Some (k', st') => match k, k' with
-                      | KParts, KParts | KOffs, KOffs | KToc, KToc | KEnd, KEnd =>
-                          match st, st' with
-                          | SPicked, SPicked | SApplied, SApplied | SNotApplied, SNotApplied => true
-                          | _, _ => false
-                          end
-                      | _, _ => false
-                      end
-  | None => false
-  end.
-Definition slot_kind (c : client) (k : skind) : bool :=
-  slot_is c k SPicked || slot_is c k SApplied || slot_is c k SNotApplied.
+  match slot c with Some (k', st') => skind_eqb k k' && sstat_eqb st st' | None => false end.
 Definition vstat (v : verdict) : sstat := match v with VApplied => SApplied | VNot => SNotApplied end.
 
 Definition not_prep (e : env) : bool := match est e with EPrep _ => false | _ => true end.
+Definition is_ongoing (e : env) : bool := match est e with EOngoing => true | _ => false end.
 
 Definition tagof (i : nat) (c : client) : tag := (i, kcur c).
+Definition tag_eqb (a b : tag) : bool := Nat.eqb (fst a) (fst b) && Nat.eqb (snd a) (snd b).
+Definition owner_is (e : env) (t : tag) : bool :=
+  match eowner e with Some o => tag_eqb o t | None => false end.
 
 Definition list_eqb (l m : list nat) : bool :=
   (Nat.eqb (length l) (length m)) && forallb (fun x => memn x m) l && forallb (fun x => memn x l) m.
+
+(* environment transitions *)
+Definition env_add (en : env) (ps : list nat) (t : tag) : env :=
+  mkE EOngoing (eep en) (einit en) (eissued en) (unionn (eparts en) ps) (glog en)
+      (if is_ongoing en then eowner en else Some t) (edone en).
+Definition env_append (en : env) (p : nat) (x : entry) : env :=
+  mkE (est en) (eep en) (einit en) (eissued en) (eparts en) (glog en ++ [(p, x)]) (eowner en) (edone en).
+Definition env_st (en : env) (st : cstate) (ep : nat) : env :=
+  mkE st ep (einit en) (eissued en) (eparts en) (glog en) (eowner en) (edone en).
+
+Definition with_client (s : gstate) (i : nat) (f : client -> option client) : option gstate :=
+  match get s i with
+  | Some c => match f c with Some c' => Some (put s i c') | None => None end
+  | None => None
+  end.
+
+Definition pairs (p : nat) (items : list nat) : list (nat * nat) := map (fun x => (x, p)) items.
 
 Definition step (s : gstate) (e : event) : option gstate :=
   let en := genv s in
@@ -241,262 +317,202 @@ Definition step (s : gstate) (e : event) : option gstate :=
   (* ----- environment ----- *)
   | EFence =>
       match est en with
-      | EOngoing => Some (put_env s (mkE (EPrep false) (S (eep en)) (einit en) (eparts en) (glog en)))
+      | EOngoing => Some (put_env s (env_st en (EPrep false) (S (eep en))))
       | _ => None
       end
   | EMarkers =>
       match est en with
-      | EPrep c => Some (put_env s (mkE (EDone c) (eep en) (einit en) []
-                                        (glog en ++ markers (eparts en) (eep en) c)))
+      | EPrep c => Some (put_env s (mkE (EDone c) (eep en) (einit en) (eissued en) []
+                                        (glog en ++ markers (eparts en) (eep en) c)
+                                        None (edone en ++ [(eowner en, c)])))
       | _ => None
       end
   | EInitOk =>
       match est en with
       | EEmpty | EDone _ =>
           let ep := if einit en then S (eep en) else 0%nat in
-          Some (put_env s (mkE EEmpty ep true [] (glog en)))
+          Some (put_env s (mkE EEmpty ep true (ep :: eissued en) [] (glog en) None (edone en)))
       | _ => None
       end
+  (* ----- application / transaction manager ----- *)
   | AStart i ep =>
       match get s i with
       | Some c =>
           match cst c, trans UNINIT READY with
           | UNINIT, Some t =>
-              if einit en && Nat.leb ep (eep en) then
-                Some (put s i (mkC true ep t [] [] false [] [] [] None 0 [] false))
+              if memn ep (eissued en) then
+                Some (mkG (set_nth i (mkC true ep t [] [] false [] [] [] [] None 0 [] false [] false false [])
+                                   (clients s))
+                          (mkE (est en) (eep en) (einit en) (remn ep (eissued en)) (eparts en) (glog en)
+                               (eowner en) (edone en))
+                          (ended s))
               else None
           | _, _ => None
           end
       | None => None
       end
-  (* ----- application / transaction manager ----- *)
   | ABegin i =>
-      match get s i with
-      | Some c => match trans (cst c) IN_TXN with
-                  | Some t => Some (put s i (mkC true (cep c) t (txn_parts c) (pend_parts c) (grp c)
-                                                 (pend_offs c) (queue c) (inflight c) (slot c)
-                                                 (S (kcur c)) [] false))
-                  | None => None
-                  end
-      | None => None
-      end
+      with_client s i (fun c =>
+        match trans (cst c) IN_TXN with Some t => Some (new_txn c t) | None => None end)
   | AAccept i x p b newb =>
-      match get s i with
-      | Some c =>
-          match cst c with
-          | IN_TXN =>
-              let acc := accepted c ++ [(x, p)] in
-              if newb then
-                (* _append_batch: only when the partition has no queued batch; maybe_add_partition_to_txn *)
-                if has_part_q p (queue c) then None
-                else
-                  let pp := if memn p (txn_parts c) || memn p (pend_parts c) then pend_parts c
-                            else pend_parts c ++ [p] in
-                  Some (put s i (mkC true (cep c) (cst c) (txn_parts c) pp (grp c) (pend_offs c)
-                                     (queue c ++ [mkB b p (kcur c) [x]]) (inflight c) (slot c) (kcur c)
-                                     acc (lostb c)))
+      with_client s i (fun c =>
+        match cst c with
+        | IN_TXN =>
+            if Nat.eqb p GROUPP then None else
+            let c1 := set_accepted c (accepted c ++ [(x, p)]) in
+            if newb then
+              (* _append_batch: only when the partition has no queued batch; maybe_add_partition_to_txn *)
+              if has_part_q p (queue c) || has_bid b (queue c ++ inflight c ++ deadb c) then None
               else
-                match snoc_item p b x (queue c) with
-                | Some q => Some (put s i (mkC true (cep c) (cst c) (txn_parts c) (pend_parts c) (grp c)
-                                               (pend_offs c) q (inflight c) (slot c) (kcur c) acc (lostb c)))
-                | None => None
-                end
-          | _ => None
-          end
-      | None => None
-      end
+                let pp := if memn p (txn_parts c) || memn p (pend_parts c) then pend_parts c
+                          else pend_parts c ++ [p] in
+                Some (set_queue (set_parts c1 (txn_parts c) pp) (queue c ++ [mkB b p (kcur c) [x] false false]))
+            else
+              match snoc_item p b x (queue c) with
+              | Some q => Some (set_queue c1 q)
+              | None => None
+              end
+        | _ => None
+        end)
   | AOffsets i items =>
-      match get s i with
-      | Some c =>
-          match cst c with
-          | IN_TXN => Some (put s i (mkC true (cep c) (cst c) (txn_parts c) (pend_parts c) (grp c)
-                                         (pend_offs c ++ [items]) (queue c) (inflight c) (slot c) (kcur c)
-                                         (accepted c ++ map (fun x => (x, GROUPP)) items) (lostb c)))
-          | _ => None
-          end
-      | None => None
-      end
+      with_client s i (fun c =>
+        match cst c with
+        | IN_TXN => Some (set_accepted (set_offs c (pend_offs c ++ [items]))
+                                       (accepted c ++ pairs GROUPP items))
+        | _ => None
+        end)
   | ACommitting i =>
-      match get s i with
-      | Some c => match cst c, trans (cst c) COMMITTING with
-                  | ABORTABLE, _ => None           (* commit raises the stored error instead *)
-                  | _, Some t => Some (put s i (c_st c t))
-                  | _, None => None
-                  end
-      | None => None
-      end
+      with_client s i (fun c =>
+        match cst c, trans (cst c) COMMITTING with
+        | ABORTABLE, _ => None           (* commit raises the stored error instead *)
+        | _, Some t => Some (set_cst c t)
+        | _, None => None
+        end)
   | AAborting i =>
-      match get s i with
-      | Some c => match trans (cst c) ABORTING with
-                  | Some t => Some (put s i (c_st c t))
-                  | None => None
-                  end
-      | None => None
-      end
+      with_client s i (fun c =>
+        match trans (cst c) ABORTING with Some t => Some (set_cst c t) | None => None end)
   | AComplete i =>
       match get s i with
       | Some c =>
-          (* _do_txn_commit: either EndTxn was answered with success, or the transaction is empty
-             for the client and no request is sent at all *)
-          if is_niln (pend_parts c) && is_niln (pend_offs c)
+          (* _do_txn_commit after flush_for_commit: either EndTxn was answered with success, or the
+             transaction is empty for the client and no request is sent at all *)
+          if is_niln (pend_parts c) && is_niln (pend_offs c) && is_niln (queue c) && is_niln (inflight c)
              && (slot_is c KEnd SApplied || (slot_is c KEnd SPicked && is_empty_c c)) then
             match cst c, trans (cst c) READY with
             | COMMITTING, Some t | ABORTING, Some t =>
                 let o := match cst c with COMMITTING => OCommitted | _ => OAborted end in
-                Some (mkG (set_nth i (mkC true (cep c) t [] (pend_parts c) false (pend_offs c) (queue c)
-                                          (inflight c) (slot c) (kcur c) (accepted c) (lostb c)) (clients s))
-                          (genv s) (ended s ++ [(tagof i c, o, accepted c, lostb c)]))
+                Some (mkG (set_nth i (set_deadb (set_grp (set_parts (set_cst c t) [] (pend_parts c)) false) [])
+                                   (clients s))
+                          (genv s) (ended s ++ [(tagof i c, o, accepted c)]))
             | _, _ => None
             end
           else None
       | None => None
       end
   | AError i =>
-      match get s i with
-      | Some c => match trans (cst c) ABORTABLE with
-                  | Some t => Some (put s i (c_clear c t))
-                  | None => None
-                  end
-      | None => None
-      end
+      with_client s i (fun c =>
+        (* only the AddPartitionsToTxn / AddOffsetsToTxn / TxnOffsetCommit handlers call it *)
+        match slot c with
+        | Some (KParts, _) | Some (KOffs, _) | Some (KToc, _) =>
+            match trans (cst c) ABORTABLE with Some t => Some (c_clear c t) | None => None end
+        | _ => None
+        end)
   | AFatal i =>
-      match get s i with
-      | Some c => match trans (cst c) FATAL with
-                  | Some t => Some (put s i (c_clear c t))
-                  | None => None
-                  end
-      | None => None
-      end
+      with_client s i (fun c =>
+        match trans (cst c) FATAL with Some t => Some (c_clear c t) | None => None end)
   | AKill i =>
       match nth_error (clients s) i with
-      | Some c => Some (put s i (mkC false (cep c) (cst c) (txn_parts c) (pend_parts c) (grp c) (pend_offs c)
-                                     (queue c) (inflight c) (slot c) (kcur c) (accepted c) (lostb c)))
+      | Some c => Some (put s i (set_alive c false))
       | None => None
       end
   (* ----- sender: the single transactional task ----- *)
   | TPick i k =>
-      match get s i with
-      | Some c =>
-          match slot c with
-          | Some _ => None                                   (* one transactional task at a time *)
-          | None =>
-              match k, next_kind c with
-              | None, None => Some s
-              | Some KParts, Some KParts => Some (put s i (c_slot c (Some (KParts, SPicked))))
-              | Some KOffs, Some KOffs => Some (put s i (c_slot c (Some (KOffs, SPicked))))
-              | Some KToc, Some KToc => Some (put s i (c_slot c (Some (KToc, SPicked))))
-              | Some KEnd, Some KEnd => Some (put s i (c_slot c (Some (KEnd, SPicked))))
-              | _, _ => None                                 (* not the request the priority rule picks *)
-              end
-          end
-      | None => None
-      end
-  | TDone i =>
-      match get s i with
-      | Some c => match slot c with Some _ => Some (put s i (c_slot c None)) | None => None end
-      | None => None
-      end
-  | CPartAdded i p =>
-      match get s i with
-      | Some c =>
-          if slot_is c KParts SApplied && memn p (pend_parts c) then
-            Some (put s i (mkC true (cep c) (cst c) (addn p (txn_parts c)) (remn p (pend_parts c)) (grp c)
-                               (pend_offs c) (queue c) (inflight c) (slot c) (kcur c) (accepted c) (lostb c)))
-          else None
-      | None => None
-      end
-  | CGroupAdded i =>
-      match get s i with
-      | Some c =>
-          if slot_is c KOffs SApplied then
-            Some (put s i (mkC true (cep c) (cst c) (txn_parts c) (pend_parts c) true (pend_offs c) (queue c)
-                               (inflight c) (slot c) (kcur c) (accepted c) (lostb c)))
-          else None
-      | None => None
-      end
-  | COffCommitted i x =>
-      match get s i with
-      | Some c =>
-          if slot_is c KToc SApplied then
-            match pend_offs c with
-            | items :: rest =>
-                if memn x items then
-                  let items' := remn x items in
-                  Some (put s i (mkC true (cep c) (cst c) (txn_parts c) (pend_parts c) (grp c)
-                                     (if is_niln items' then rest else items' :: rest) (queue c) (inflight c)
-                                     (slot c) (kcur c) (accepted c) (lostb c)))
-                else None
-            | [] => None
+      with_client s i (fun c =>
+        match slot c with
+        | Some _ => None                                   (* one transactional task at a time *)
+        | None =>
+            match k, next_kind c with
+            | None, None => Some c
+            | Some k1, Some k2 => if skind_eqb k1 k2 then Some (set_slot c (Some (k1, SPicked))) else None
+            | _, _ => None                                 (* not the request the priority rule picks *)
             end
-          else None
-      | None => None
-      end
+        end)
+  | TDone i =>
+      with_client s i (fun c =>
+        match slot c with Some _ => Some (set_slot c None) | None => None end)
+  | CPartAdded i p =>
+      with_client s i (fun c =>
+        if slot_is c KParts SApplied && memn p (pend_parts c)
+        then Some (set_parts c (addn p (txn_parts c)) (remn p (pend_parts c))) else None)
+  | CGroupAdded i =>
+      with_client s i (fun c => if slot_is c KOffs SApplied then Some (set_grp c true) else None)
+  | COffCommitted i x =>
+      with_client s i (fun c =>
+        if slot_is c KToc SApplied && memn x (ctoc c) then
+          match pend_offs c with
+          | items :: rest =>
+              if memn x items then
+                let items' := remn x items in
+                Some (set_offs c (if is_niln items' then rest else items' :: rest))
+              else None
+          | [] => None
+          end
+        else None)
   (* ----- sender: batches ----- *)
   | SDrain i b =>
-      match get s i with
-      | Some c =>
-          match take_bid b (queue c) with
-          | Some (x, q) =>
-              (* the head batch of its partition; the partition is not waiting for AddPartitionsToTxn
-                 (muting) and has no batch in flight *)
-              match take_head (bpart x) (queue c) with
-              | Some (h, _) =>
-                  if Nat.eqb (bid h) b && negb (memn (bpart x) (pend_parts c))
-                     && negb (has_part_q (bpart x) (inflight c))
-                  then Some (put s i (c_queues c q (inflight c ++ [x])))
-                  else None
-              | None => None
-              end
-          | None => None
-          end
-      | None => None
-      end
+      with_client s i (fun c =>
+        match take_bid b (queue c) with
+        | Some (x, q) =>
+            (* the head batch of its partition; the partition is not waiting for AddPartitionsToTxn
+               (muting) and has no batch in flight *)
+            match head_of (bpart x) (queue c) with
+            | Some h =>
+                if Nat.eqb (bid h) b && negb (memn (bpart x) (pend_parts c))
+                   && negb (has_part_q (bpart x) (inflight c))
+                then Some (set_inflight (set_queue c q)
+                                        (inflight c ++ [mkB (bid x) (bpart x) (btag x) (bitems x) true (bapp x)]))
+                else None
+            | None => None
+            end
+        | None => None
+        end)
   | SOk i b =>
-      match get s i with
-      | Some c => match take_bid b (inflight c) with
-                  | Some (_, f) => Some (put s i (c_queues c (queue c) f))
-                  | None => None
-                  end
-      | None => None
-      end
+      with_client s i (fun c =>
+        match take_bid b (inflight c) with
+        | Some (x, f) => if bapp x then Some (set_inflight c f) else None
+        | None => match cst c with FATAL => if has_bid b (deadb c) then Some c else None | _ => None end
+        end)
   | SRetry i b =>
-      match get s i with
-      | Some c => match take_bid b (inflight c) with
-                  | Some (x, f) => Some (put s i (c_queues c (x :: queue c) f))
-                  | None => None
-                  end
-      | None => None
-      end
+      with_client s i (fun c =>
+        match take_bid b (inflight c) with
+        | Some (x, f) => Some (set_queue (set_inflight c f) (x :: queue c))
+        | None => match cst c with FATAL => if has_bid b (deadb c) then Some c else None | _ => None end
+        end)
   | SFail i b =>
-      match get s i with
-      | Some c =>
-          let c' := match take_bid b (inflight c) with
-                    | Some (_, f) => Some (c_queues c (queue c) f)
-                    | None => match take_bid b (queue c) with
-                              | Some (_, q) => Some (c_queues c q (inflight c))
-                              | None => None
-                              end
-                    end in
-          match c' with
-          | Some c1 => Some (put s i (mkC true (cep c1) (cst c1) (txn_parts c1) (pend_parts c1) (grp c1)
-                                          (pend_offs c1) (queue c1) (inflight c1) (slot c1) (kcur c1)
-                                          (accepted c1) true))
-          | None => None
-          end
-      | None => None
-      end
+      with_client s i (fun c =>
+        match take_bid b (inflight c) with
+        | Some (x, f) => Some (set_lostb (set_deadb (set_inflight c f) (deadb c ++ [x])) true)
+        | None => match take_bid b (queue c) with
+                  | Some (_, q) => Some (set_lostb (set_queue c q) true)
+                  | None => match cst c with
+                            | FATAL => if has_bid b (deadb c) then Some c else None
+                            | _ => None
+                            end
+                  end
+        end)
   (* ----- requests at the cluster ----- *)
   | RAddParts i ps v =>
       match get s i with
       | Some c =>
           if slot_is c KParts SPicked && list_eqb ps (pend_parts c) && negb (is_niln ps) then
-            let s1 := put s i (c_slot c (Some (KParts, vstat v))) in
             match v with
             | VApplied =>
-                if Nat.eqb (cep c) (eep en) && not_prep en then
-                  Some (put_env s1 (mkE EOngoing (eep en) (einit en) (unionn (eparts en) ps) (glog en)))
+                if Nat.eqb (cep c) (eep en) && not_prep en
+                then Some (put_env (put s i (set_cowned (set_slot c (Some (KParts, SApplied)))
+                                                        (cowned c || negb (is_ongoing en))))
+                                   (env_add en ps (tagof i c)))
                 else None
-            | VNot => Some s1
+            | VNot => Some (put s i (set_slot c (Some (KParts, SNotApplied))))
             end
           else None
       | None => None
@@ -505,13 +521,14 @@ Definition step (s : gstate) (e : event) : option gstate :=
       match get s i with
       | Some c =>
           if slot_is c KOffs SPicked then
-            let s1 := put s i (c_slot c (Some (KOffs, vstat v))) in
             match v with
             | VApplied =>
-                if Nat.eqb (cep c) (eep en) && not_prep en then
-                  Some (put_env s1 (mkE EOngoing (eep en) (einit en) (addn GROUPP (eparts en)) (glog en)))
+                if Nat.eqb (cep c) (eep en) && not_prep en
+                then Some (put_env (put s i (set_cowned (set_slot c (Some (KOffs, SApplied)))
+                                                        (cowned c || negb (is_ongoing en))))
+                                   (env_add en [GROUPP] (tagof i c)))
                 else None
-            | VNot => Some s1
+            | VNot => Some (put s i (set_slot c (Some (KOffs, SNotApplied))))
             end
           else None
       | None => None
@@ -522,14 +539,14 @@ Definition step (s : gstate) (e : event) : option gstate :=
           match pend_offs c with
           | hd :: _ =>
               if slot_is c KToc SPicked && list_eqb items hd then
-                let s1 := put s i (c_slot c (Some (KToc, vstat v))) in
                 match v with
                 | VApplied =>
-                    if Nat.eqb (cep c) (eep en) then
-                      Some (put_env s1 (mkE (est en) (eep en) (einit en) (eparts en)
-                                            (glog en ++ [(GROUPP, Data (cep c) (tagof i c) items)])))
+                    if Nat.eqb (cep c) (eep en)
+                    then Some (put_env (put s i (set_ctoc (set_capp (set_slot c (Some (KToc, SApplied)))
+                                                                    (capp c ++ pairs GROUPP items)) items))
+                                       (env_append en GROUPP (Data (cep c) (tagof i c) items)))
                     else None
-                | VNot => Some s1
+                | VNot => Some (put s i (set_slot c (Some (KToc, SNotApplied))))
                 end
               else None
           | [] => None
@@ -542,35 +559,37 @@ Definition step (s : gstate) (e : event) : option gstate :=
           (* EndTxn leaves only after flush_for_commit: nothing queued, nothing in flight; and the
              result is the one the application asked for *)
           if slot_is c KEnd SPicked && is_niln (queue c) && is_niln (inflight c)
-             && negb (is_empty_c c)
+             && is_niln (pend_parts c) && is_niln (pend_offs c) && negb (is_empty_c c)
              && (match cst c, commit with COMMITTING, true | ABORTING, false => true | _, _ => false end)
           then
-            let s1 := put s i (c_slot c (Some (KEnd, vstat v))) in
             match v with
             | VApplied =>
+                let c1 := set_csent (set_slot c (Some (KEnd, SApplied))) (csent c || commit) in
                 if Nat.eqb (cep c) (eep en) then
                   match est en with
-                  | EOngoing => Some (put_env s1 (mkE (EPrep commit) (eep en) (einit en) (eparts en) (glog en)))
-                  | EDone c0 => if Bool.eqb c0 commit then Some s1 else None    (* retried EndTxn *)
+                  | EOngoing => Some (put_env (put s i c1) (env_st en (EPrep commit) (eep en)))
+                  | EDone c0 => if Bool.eqb c0 commit then Some (put s i c1) else None    (* retried EndTxn *)
                   | _ => None
                   end
                 else None
-            | VNot => Some s1
+            | VNot => Some (put s i (set_slot c (Some (KEnd, SNotApplied))))
             end
           else None
       | None => None
       end
   | RProduce i b v =>
-      (* also a dead instance's last request may still be applied *)
+      (* also the last request of a process that has just died may still be applied *)
       match nth_error (clients s) i with
       | Some c =>
-          match take_bid b (inflight c) with
+          let pool := inflight c ++ (match cst c with FATAL => deadb c | _ => [] end) in
+          match take_bid b pool with
           | Some (x, _) =>
               match v with
               | VApplied =>
-                  if Nat.eqb (cep c) (eep en) then
-                    Some (put_env s (mkE (est en) (eep en) (einit en) (eparts en)
-                                         (glog en ++ [(bpart x, Data (cep c) (i, btag x) (bitems x))])))
+                  if Nat.eqb (cep c) (eep en)
+                  then Some (put_env (put s i (set_capp (set_inflight c (mark_app b (inflight c)))
+                                                        (capp c ++ pairs (bpart x) (bitems x))))
+                                     (env_append en (bpart x) (Data (cep c) (i, btag x) (bitems x))))
                   else None
               | VNot => Some s
               end
@@ -592,6 +611,104 @@ Fixpoint first_reject (s : gstate) (tr : list event) (n : nat) : option nat :=
   | e :: tr' => match step s e with Some s' => first_reject s' tr' (S n) | None => Some n end
   end.
 
+(* ---------- the client obligations, as checks on (state, event) --------------------------------- *)
+(* 1 add_before_produce   2 end_after_acks   3 no_write_outside_txn   4 end_reaches_coordinator *)
+Definition last_done_owner (en : env) : option tag :=
+  match rev (edone en) with (o, _) :: _ => o | [] => None end.
+
+Definition ob (s : gstate) (e : event) : option nat :=
+  let en := genv s in
+  match e with
+  | RProduce i b VApplied =>
+      match nth_error (clients s) i with
+      | Some c =>
+          match take_bid b (inflight c ++ (match cst c with FATAL => deadb c | _ => [] end)) with
+          | Some (x, _) =>
+              if negb (is_ongoing en && memn (bpart x) (eparts en)) then Some 1%nat
+              else if negb (Nat.eqb (btag x) (kcur c) && owner_is en (i, btag x)) then Some 3%nat
+              else None
+          | None => None
+          end
+      | None => None
+      end
+  | RToc i _ VApplied =>
+      match get s i with
+      | Some c => if negb (is_ongoing en && memn GROUPP (eparts en)) then Some 1%nat
+                  else if negb (owner_is en (tagof i c)) then Some 3%nat else None
+      | None => None
+      end
+  | RAddParts i _ VApplied | RAddOffs i VApplied =>
+      match get s i with
+      | Some c =>
+          (* registering into a coordinator transaction that another application transaction
+             opened, or opening a second one, is writing outside the transaction *)
+          if is_ongoing en then (if owner_is en (tagof i c) then None else Some 3%nat)
+          else (if cowned c then Some 3%nat else None)
+      | None => None
+      end
+  | REndTxn i commit VApplied =>
+      match get s i with
+      | Some c =>
+          match est en with
+          | EOngoing => if negb (owner_is en (tagof i c)) then Some 3%nat
+                        else if commit && lostb c then Some 2%nat else None
+          | EDone _ => match last_done_owner en with
+                       | Some o => if tag_eqb o (tagof i c) then None else Some 4%nat
+                       | None => Some 4%nat
+                       end
+          | _ => None
+          end
+      | None => None
+      end
+  | AComplete i =>
+      match get s i with
+      | Some c =>
+          (* abort is reported only if no EndTxn(commit) of this transaction was applied; a transaction
+             completes without any EndTxn only if it accepted nothing *)
+          if (match cst c with ABORTING => csent c | _ => false end) then Some 4%nat
+          else if slot_is c KEnd SApplied then None
+          else if is_niln (accepted c) then None else Some 4%nat
+      | None => None
+      end
+  | _ => None
+  end.
+
+(* freshness of item ids (a property of the workload, not of the client) *)
+Definition all_accepted (s : gstate) : list (nat * nat) :=
+  flat_map accepted (clients s) ++ flat_map (fun x => snd x) (ended s).
+Definition fresh (s : gstate) (e : event) : bool :=
+  match e with
+  | AAccept _ x _ _ _ => negb (memn x (map fst (all_accepted s)))
+  | AOffsets _ items => forallb (fun x => negb (memn x (map fst (all_accepted s)))) items
+  | _ => true
+  end.
+
+Fixpoint all_fresh (s : gstate) (tr : list event) : bool :=
+  match tr with
+  | [] => true
+  | e :: tr' => fresh s e && match step s e with Some s' => all_fresh s' tr' | None => true end
+  end.
+
+(* run with the obligations enforced *)
+Fixpoint run_ob (s : gstate) (tr : list event) : option gstate :=
+  match tr with
+  | [] => Some s
+  | e :: tr' => match ob s e with
+                | Some _ => None
+                | None => match step s e with Some s' => run_ob s' tr' | None => None end
+                end
+  end.
+
+(* first obligation violated along an accepted trace: (event index, obligation number) *)
+Fixpoint first_ob (s : gstate) (tr : list event) (n : nat) : option (nat * nat) :=
+  match tr with
+  | [] => None
+  | e :: tr' => match ob s e with
+                | Some k => Some (n, k)
+                | None => match step s e with Some s' => first_ob s' tr' (S n) | None => None end
+                end
+  end.
+
 (* ---------- outputs for the correspondence ---------------------------------------------------------- *)
 (* (partition, epoch, kind 0 data / 1 commit marker / 2 abort marker, items) *)
 Definition entry_obs (x : nat * entry) : nat * nat * nat * list nat :=
@@ -605,14 +722,17 @@ Definition est_num (c : cstate) : nat :=
 Definition outcome_num (o : outcome) : nat := match o with OCommitted => 1 | OAborted => 0 end.
 
 (* inl (global log, coordinator (state, epoch, partitions), read-committed views per partition,
-        ended application transactions, client states)  /  inr (index of the rejected event) *)
+        ended application transactions, client states, first obligation violated (event index,
+        obligation) or (0, 0))  /  inr (index of the rejected event) *)
 Definition replay (n : nat) (ps : list nat) (tr : list event) :=
   match run (g0 n) tr with
   | Some s =>
       inl (map entry_obs (glog (genv s)),
            (est_num (est (genv s)), eep (genv s), eparts (genv s)),
            map (fun p => (p, rc_view (log_of p (glog (genv s))))) ps,
-           map (fun x => match x with (tg, o, acc, lost) => (tg, outcome_num o) end) (ended s),
-           map (fun c => tcode (cst c)) (clients s))
+           map (fun x => match x with (tg, o, acc) => (tg, outcome_num o) end) (ended s),
+           map (fun c => tcode (cst c)) (clients s),
+           (match first_ob (g0 n) tr O with Some x => x | None => (O, O) end,
+            all_fresh (g0 n) tr))
   | None => inr (match first_reject (g0 n) tr O with Some k => k | None => O end)
   end.
